@@ -527,7 +527,7 @@ theorem model_accesses_in_bounds :
     invariant (a probability read before any `lzma_decoder_reset`) -/
 example : lzma2DecodeC 4096 [0x01, 0x00, 0x01, 0x41, 0x42, 0x00] = some { ret := .streamEnd, out := [0x41, 0x42], consumed := 6 } := by
   decide +kernel
-example : ∃ s', rcBitC 0 (initLzma2 4096 [] (ByteArray.mk #[])) = .error .oob s' := ⟨_, rfl⟩
+example : ∃ s', rcBitC M_IS_MATCH 0 (initLzma2 4096 [] (ByteArray.mk #[])) = .error .oob s' := ⟨_, rfl⟩
 
 /-- Initialisation is total and rejects exactly the documented cases: PROG_ERROR for lc/lp/pb outside `is_lclppb_valid`,
     OPTIONS_ERROR for LZMA1EXT flags other than LZMA_LZMA1EXT_ALLOW_EOPM; nothing else fails (allocation aside). -/
